@@ -81,6 +81,10 @@ pub struct RunOpts {
     pub keep_file: bool,
     /// open the file that is already at `path` instead of creating a new one; start from this model
     pub start_model: Option<MBucket>,
+    /// every write transaction is accompanied by a short-lived reader: 1 = opened before the
+    /// writer begins and closed after its operations, just before commit; 2 = opened before the
+    /// writer begins and closed right after it began
+    pub reader_dance: u8,
 }
 
 impl RunOpts {
@@ -99,6 +103,7 @@ impl RunOpts {
             path,
             keep_file: false,
             start_model: None,
+            reader_dance: 0,
         }
     }
 }
@@ -754,6 +759,64 @@ pub fn check_seek_pre(b: &Bucket, m: &MBucket, key: &[u8], extra: u8, pre: u8, w
     Ok(())
 }
 
+/// One long-lived cursor re-seeked to each key in turn without being drained (`takes[i]` entries
+/// are read between seeks). After every seek: the return value, `current()` when the key exists,
+/// and the entries read must be the start of the suffix at the key or at an immediate neighbour.
+pub fn check_seek_chain(b: &Bucket, m: &MBucket, keys: &[Vec<u8>], takes: &[u8], what: &str) -> Result<(), Failure> {
+    let exp = model_entries(m);
+    let mut c = b.cursor();
+    for (i, key) in keys.iter().enumerate() {
+        let take = takes.get(i % takes.len().max(1)).copied().unwrap_or(0) as usize;
+        let exists = c.seek(key);
+        let present = m.entries.contains_key(key.as_slice());
+        if exists != present {
+            return Err(Failure::new(
+                "seek",
+                format!("{} re-used cursor, seek #{} ({}): returned {} but key presence is {}", what, i + 1, hex(key), exists, present),
+            ));
+        }
+        let cur = c.current().map(|d| Ent::of(&d));
+        if present {
+            match &cur {
+                Some(e) if e.key() == key.as_slice() => {}
+                other => {
+                    return Err(Failure::new(
+                        "seek",
+                        format!("{} re-used cursor, seek #{} ({}) found the key but current() is {:?}", what, i + 1, hex(key), other.as_ref().map(|e| e.short())),
+                    ))
+                }
+            }
+        }
+        let mut got = Vec::new();
+        for _ in 0..take {
+            match c.next() {
+                Some(d) => got.push(Ent::of(&d)),
+                None => break,
+            }
+        }
+        let succ = exp.iter().position(|e| e.key() >= key.as_slice()).unwrap_or(exp.len());
+        let mut starts = vec![succ];
+        if !present && succ > 0 {
+            starts.push(succ - 1);
+        }
+        let ok = starts.iter().any(|s| {
+            let want = &exp[*s..];
+            let n = take.min(want.len());
+            got.len() == n && want[..n] == got[..]
+        });
+        if !ok {
+            return Err(Failure::new(
+                "seek",
+                format!(
+                    "{} re-used cursor, seek #{} ({}) [present={}] then {} x next(): got {:?}, expected the entries from index {} (or its predecessor) of {}",
+                    what, i + 1, hex(key), present, take, got.iter().map(|e| e.short()).collect::<Vec<_>>(), succ, exp.len()
+                ),
+            ));
+        }
+    }
+    Ok(())
+}
+
 pub fn in_bounds(k: &[u8], lo: &Bound<Vec<u8>>, hi: &Bound<Vec<u8>>) -> bool {
     let lo_ok = match lo {
         Bound::Unbounded => true,
@@ -984,6 +1047,18 @@ pub fn check_bucket_full(b: &Bucket, m: &MBucket, what: &str, probes: usize) -> 
     // seek / range samples
     for k in absent.iter().take(9).chain(keys.iter().step_by(step).map(|k| *k)) {
         check_seek(b, m, k, 1, what)?;
+    }
+    // one long-lived cursor re-seeked without draining: ascending over sampled keys (crossing
+    // leaves and subtrees), then back and forth
+    if keys.len() >= 2 {
+        let mut chain: Vec<Vec<u8>> = keys.iter().step_by(step).map(|k| (*k).clone()).collect();
+        chain.push(keys[keys.len() - 1].clone());
+        let n = chain.len();
+        for i in 0..n.min(6) {
+            chain.push(chain[(i * 7 + 3) % n].clone());
+        }
+        chain.extend(absent.iter().take(6).cloned());
+        check_seek_chain(b, m, &chain, &[0, 1, 2, 0, 3], what)?;
     }
     if !keys.is_empty() {
         let a = keys[keys.len() / 3].clone();
@@ -1453,9 +1528,17 @@ pub fn run_tx(
 ) -> Result<bool, Failure> {
     let writable = spec.kind != TxKind::Read;
     let arena = Bump::new();
+    let mut dance = if writable && opts.reader_dance != 0 {
+        Some(db.tx(false).map_err(|e| Failure::new("tx_err", format!("tx(false) failed: {}", e)))?)
+    } else {
+        None
+    };
     let tx = db
         .tx(writable)
         .map_err(|e| Failure::new("tx_err", format!("tx({}) failed: {}", writable, e)))?;
+    if opts.reader_dance == 2 {
+        dance.take();
+    }
     let mut tx_deleted = false;
     let mut tx_inserted = false;
     {
@@ -1525,6 +1608,7 @@ pub fn run_tx(
         }
     }
     *op_at = None;
+    drop(dance.take());
     if tx_deleted && tx_inserted && stats.max_height >= 2 {
         stats.multi_leaf_tx_with_delete_and_insert = true;
     }
